@@ -152,14 +152,33 @@ def hexs(b):
 def run(chk, replay=None):
     rng = C.SplitMix(chk.seed)
     broken = []
+    import time
+    phase = {}
+    tp = [time.time()]
+
+    def lap(name):
+        now = time.time()
+        phase[name] = round(phase.get(name, 0) + now - tp[0], 1)
+        tp[0] = now
+    chk.cov["phase_s"] = phase
     # the two generators share the clang dumps; libvita + the C11 generator harness build meanwhile
-    with cf.ThreadPoolExecutor(3) as ex:
-        f_ser = ex.submit(K11.build_harness)
-        f_gen = ex.submit(regen, chk, broken)
-        f_mem = ex.submit(regen_members, chk, broken)
-        gen_ok = f_gen.result()
-        table = f_mem.result()
-        ser = f_ser.result()
+    pool = cf.ThreadPoolExecutor(4)
+    f_gen = pool.submit(regen, chk, broken)
+    f_mem = pool.submit(regen_members, chk, broken)
+    C.build_vita("asan")
+    lap("libvita")
+    f_ser = pool.submit(K11.build_harness)
+    table = f_mem.result()
+    lap("member-table")
+
+    def build_exe():
+        try:
+            return C.build_harness("c12_load", "asan", extra_flags=["-DVERIF_INC=" + K11.inc_hash()]), None
+        except RuntimeError as e:
+            return None, str(e)
+    f_exe = pool.submit(build_exe)       # (needs the generated member header)
+    gen_ok = f_gen.result()
+    lap("flow-table")
     drv_ok = False
     if gen_ok:
         ok, msg = chk.prove("Vita.C12.Props", ["Vita.C12.Props", "c12_driver"])
@@ -169,12 +188,39 @@ def run(chk, replay=None):
     drv_ok = okd
     if not okd:
         broken.append("c12_driver does not build: " + C.lean_errors(out))
+    elif gen_ok:
+        # what the obligations say about each entry of the regenerated table (names the function and the members)
+        rcf, sof, _ = C.sh([C.driver_path("c12_driver"), "flow"], timeout=120)
+        bad_entries = []
+        for ln in sof.splitlines():
+            f = [x.strip() for x in ln.split("|")]
+            if len(f) < 6:
+                continue
+            kind = f[2].rsplit(".", 1)[-1]
+            dirty = f[3].split(":", 1)[1].strip()
+            chk.count("flow_entry:" + kind)
+            why = []
+            if kind == "load" and dirty != "[]":
+                why.append("may have modified " + dirty + " when it fails (not commit-last)")
+            if f[4].endswith("false"):
+                why.append("has an extraction from the stream or a nested load whose failure nobody checks")
+            if f[5].endswith("false"):
+                why.append("can report failure in an undocumented way")
+            if why:
+                bad_entries.append(f[1] + " " + "; ".join(why))
+        chk.cov["flow_report"] = sof.splitlines()[:60]
+        if bad_entries and broken:
+            broken[-1] = "data-flow obligations of the regenerated table fail: " + " || ".join(bad_entries) + \
+                " || " + broken[-1][:600]
 
-    try:
-        exe = C.build_harness("c12_load", "asan", extra_flags=["-DVERIF_INC=" + K11.inc_hash()])
-    except RuntimeError as e:
+    lap("lean")
+    ser = f_ser.result()
+    exe, exe_err = f_exe.result()
+    pool.shutdown()
+    lap("harnesses")
+    if exe is None:
         # typically: a data member of a load target whose type has no snapshot rule
-        msg = str(e)
+        msg = exe_err
         m = re.search(r"[^\n]*(no snapshot rule|not enumerated|hashed container)[^\n]*", msg)
         chk.violation("harness c12_load does not compile against the current tree: the deep snapshot cannot cover "
                       "every data member of the load targets: " + (m.group(0) if m else msg[-1500:]),
@@ -212,6 +258,7 @@ def run(chk, replay=None):
         reqs = []
         nobj, max_exh, n_tok = BUDGET[typ][tier_i]
         rc, objs, se = K11.gen_objects(ser, chk.seed, nobj, typ)
+        lap("gen_objects")
         for i, o in enumerate(objs):
             if o["verdict"] != "ok" or o["hex"] == "-":
                 continue      # only *valid* serializations are damaged (C11 reports the others)
@@ -267,7 +314,9 @@ def run(chk, replay=None):
             fc = [ex.submit(cpp, i) for i in range(shards)]
             fm = [ex.submit(model, i) for i in range(shards)]
             rc_ = [f.result() for f in fc]
+            lap("cpp(+model)")
             rm_ = [f.result() for f in fm]
+            lap("model-tail")
         cpp_ans = [None] * len(lines)
         mod_ans = [None] * len(lines)
         for i in range(shards):
@@ -281,6 +330,7 @@ def run(chk, replay=None):
                 for j, v in enumerate(rm_[i]):
                     mod_ans[i + j * shards] = v
         compare(reqs, lines, cpp_ans, mod_ans)
+        lap("compare")
 
     def absorb_stats(st):
         if not st or not st.startswith("stats "):
